@@ -9,6 +9,18 @@ Definition media110 : list pkt :=
 Definition first_repair (r : enc * res (option (list repair))) : option repair :=
   match snd r with Ok (Some (r :: _)) => Some r | _ => None end.
 
+Definition refute_b : bool :=
+  match first_repair (encode_fec_gen 110 (new_encoder 115 7) media110 1) with
+  | Some r => match parse03 (r_payload r) with
+              | Some h => negb (existsb (Z.eqb 109) (f_pos h)) && negb (recovers_b media110 (r_payload r) h 0)
+              | None => false
+              end
+  | None => false
+  end.
+
+Lemma refute_b_true : refute_b = true.
+Proof. vm_compute. reflexivity. Qed.
+
 Lemma unfixed_110_refuted :
   zlen media110 = 110 /\ valid_batch media110 = true /\
   exists r h, first_repair (encode_fec_gen 110 (new_encoder 115 7) media110 1) = Some r /\
@@ -16,15 +28,13 @@ Lemma unfixed_110_refuted :
               existsb (Z.eqb 109) (f_pos h) = false /\          (* packet 109 is XOR-ed in but not named *)
               ~ recovers media110 (r_payload r) h 0.             (* and no packet of the group can be recovered *)
 Proof.
-  split; [reflexivity|]. split; [vm_compute; reflexivity|].
-  destruct (first_repair (encode_fec_gen 110 (new_encoder 115 7) media110 1)) as [r|] eqn:E;
-    [|vm_compute in E; discriminate].
-  destruct (parse03 (r_payload r)) as [h|] eqn:P;
-    [|revert P; vm_compute in E; injection E as <-; vm_compute; discriminate].
-  exists r, h. split; [reflexivity|]. split; [reflexivity|].
-  vm_compute in E. injection E as <-. vm_compute in P. injection P as <-.
-  split; [vm_compute; reflexivity|].
-  rewrite <- recovers_b_iff. vm_compute. discriminate.
+  split; [vm_compute; reflexivity|]. split; [vm_compute; reflexivity|].
+  pose proof refute_b_true as H. unfold refute_b in H.
+  destruct (first_repair (encode_fec_gen 110 (new_encoder 115 7) media110 1)) as [r|]; [|discriminate].
+  destruct (parse03 (r_payload r)) as [h|] eqn:P; [|discriminate].
+  apply andb_true_iff in H as [H1 H2]. apply negb_true_iff in H1. apply negb_true_iff in H2.
+  exists r, h. split; [reflexivity|]. split; [exact P|]. split; [assumption|].
+  rewrite <- recovers_b_iff. rewrite H2. discriminate.
 Qed.
 
 (* the fixed encoder declines that batch *)
